@@ -630,3 +630,129 @@ func dWriteDeadlineMoved(w *world) {
 }
 
 func init() { registerScenario("D_write_deadline_moved", dWriteDeadlineMoved) }
+
+// dGateToken (two passes of one seed): blocking-write mode, an earlier write keeps the queue busy, then two
+// writers on two streams park at the write gate - the first with a write deadline, the second without. Pass 1 has
+// no deadline and records when the first writer got through; pass 2 sets the first writer's deadline to exactly
+// that instant, so that the deadline and the gate's wake-up fall together and the seeded scheduler decides the
+// order. Whatever happens to the first write (it may succeed or fail with the deadline error), the second writer
+// must get through and its message must arrive.
+func dGateToken(w *world) {
+	cfg := directedConfig(w, false)
+	cfg.Side[0].BlockWrite = true
+	cfg.YieldPPM, cfg.SwitchPPM = 400000, 400000
+	x, _, ok := directedStart(w, cfg)
+	if !ok {
+		return
+	}
+	tp := w.wtape
+	var sa [2]*simStream
+	var sb [2]*simStream
+	opened := 0
+	for _, ep := range w.eps {
+		ep := ep
+		w.sim.spawnClient("open."+ep.name, ep.name, func() {
+			for i := 0; i < 2; i++ {
+				s, err := ep.assoc.OpenStream(uint16(i+1), PayloadTypeWebRTCBinary)
+				if err != nil {
+					return
+				}
+				st := &simStream{ep: ep, sid: uint16(i + 1), s: s}
+				if ep == w.eps[0] {
+					sa[i] = st
+				} else {
+					sb[i] = st
+				}
+			}
+			opened++
+		})
+	}
+	if w.run(func() bool { return opened == 2 }, w.now()+time.Second) != stopCond {
+		return
+	}
+	// readers at B
+	for i := 0; i < 2; i++ {
+		i := i
+		w.sim.spawnClient(fmt.Sprintf("reader.B.%d", i+1), "B", func() {
+			buf := make([]byte, 70000)
+			for {
+				_ = sb[i].s.SetReadDeadline(time.Now().Add(time.Second))
+				r := w.read(sb[i], buf, x.index)
+				if r.err != nil && !errors.Is(r.err, ErrReadDeadlineExceeded) {
+					return
+				}
+			}
+		})
+	}
+	var m0, m1, m2 *msgRec
+	t0 := w.now()
+	done := 0
+	deadlineUs, second := w.params["gate_deadline_us"]
+	w.sim.spawnClient("writer0.A", "A", func() {
+		m0 = w.newMsg(sa[0], 12000+tp.intn(8000), false) // more than the initial window: the tail stays pending for a round trip
+		x.index[m0.ppi] = m0
+		w.write(sa[0], m0)
+		done++
+	})
+	w.sim.spawnClient("writer1.A", "A", func() {
+		h := vsimBlocking("client.sleep")
+		time.Sleep(time.Millisecond)
+		vsimWoke(h)
+		if second {
+			_ = sa[0].s.SetWriteDeadline(w.t0.Add(t0 + time.Duration(deadlineUs)*time.Microsecond))
+		}
+		m1 = w.newMsg(sa[0], 10, false)
+		x.index[m1.ppi] = m1
+		w.write(sa[0], m1)
+		if w.extra == nil {
+			w.extra = map[string]any{}
+		}
+		w.extra["gate_first_returned_us"] = int((w.now() - t0) / time.Microsecond)
+		done++
+	})
+	w.sim.spawnClient("writer2.A", "A", func() {
+		h := vsimBlocking("client.sleep")
+		time.Sleep(2 * time.Millisecond)
+		vsimWoke(h)
+		m2 = w.newMsg(sa[1], 10, false)
+		x.index[m2.ppi] = m2
+		w.write(sa[1], m2)
+		done++
+	})
+	w.run(func() bool {
+		return done == 3 && m2 != nil && m2.delivered == 1 && (m1 == nil || m1.err != nil || m1.delivered == 1)
+	}, w.now()+120*time.Second)
+	if w.stopped() || !second {
+		return
+	}
+	if done != 3 {
+		w.violate("C20", "call-never-returned", "blocking-write mode: a write with a deadline and a write without one waited at the write gate; 120 s after the queue drained these calls have not returned: %s", pendingCalls(w))
+		return
+	}
+	if m2.err != nil || m2.delivered != 1 {
+		w.violate("C20", "lost-under-concurrency", "the write without a deadline returned n=%d err=%v and its message was delivered %d times", m2.n, m2.err, m2.delivered)
+		return
+	}
+	if m1.err == nil && m1.delivered != 1 {
+		w.violate("C20", "lost-under-concurrency", "the write with the deadline returned success but its message was delivered %d times", m1.delivered)
+		return
+	}
+	if m1.err != nil && m1.delivered != 0 {
+		w.violate("C20", "failed-write-delivered", "the write with the deadline failed (%v) but its message was delivered", m1.err)
+	}
+	if m1.err != nil {
+		w.probe("gate-deadline-won")
+	} else {
+		w.probe("gate-token-won")
+	}
+}
+
+func init() {
+	registerScenario("D_gate_token", dGateToken)
+	registerTwoPass("D_gate_token", func(seed uint64, r1 *runResult) map[string]int {
+		us, _ := r1.Extra["gate_first_returned_us"].(int)
+		h := vsimNewTape("gate", seed)
+		// at, just before or just after the instant at which the first waiting writer got through
+		return map[string]int{"gate_deadline_us": us + pick(h, 0, 0, 0, -1, 1, -100, 100)}
+	})
+}
